@@ -947,6 +947,8 @@ impl<'tera> VirtualMachine<'tera> {
         state.filters = Some(&self.tera.filters);
         let mut output = Vec::with_capacity(1024);
         vm.interpret(&mut state, &mut output)?;
+        #[cfg(tera_verif)]
+        crate::verif::assert_state_clean(&state, "render_component");
 
         Ok(String::from_utf8(output)?)
     }
@@ -970,6 +972,8 @@ impl<'tera> VirtualMachine<'tera> {
         include_state.include_parent = Some(state);
         include_state.filters = Some(&self.tera.filters);
         vm.interpret(&mut include_state, output)?;
+        #[cfg(tera_verif)]
+        crate::verif::assert_state_clean(&include_state, "render_include");
         Ok(())
     }
 
@@ -1020,6 +1024,8 @@ impl<'tera> VirtualMachine<'tera> {
         } else {
             self.interpret(&mut state, &mut output)?;
         }
+        #[cfg(tera_verif)]
+        crate::verif::assert_state_clean(&state, "render_to");
         Ok(())
     }
 }
